@@ -15,7 +15,7 @@ import (
 // c07Truth is the property's table for the kind pool.
 func c07Truth(kind string) bool {
 	switch kind {
-	case "nil", "bool_f", "str_empty", "html_empty", "nilp", "ptime_nil", "stringer_nilptr":
+	case "nil", "bool_f", "str_empty", "html_empty", "nilp", "ptime_nil", "stringer_nilptr", "pathable_nilptr":
 		return false
 	}
 	// named_string holds "ns": truthy like everything else
